@@ -2,10 +2,44 @@
 
 package ed25519
 
-import "github.com/cloudflare/pat-go/ed25519/internal/edwards25519/field"
+import (
+	"github.com/cloudflare/pat-go/ed25519/internal/edwards25519"
+	"github.com/cloudflare/pat-go/ed25519/internal/edwards25519/field"
+)
 
 // VerifFieldOp exposes the field arithmetic of the internal package to the /verif correspondence
 // harness (compiled only with -tags verif); see field.VerifOp.
 func VerifFieldOp(op string, a, b [5]uint64, k uint64, x []byte) ([5]uint64, int, []byte) {
 	return field.VerifOp(op, a, b, k, x)
+}
+
+// VerifPointOp applies a group operation of the internal package to points given by their 32-byte
+// encodings: "add", "sub", "neg" (of a), "double" (a + a), "equal" (result {1} or {0}), "recode"
+// (decode and re-encode a). ok is false when an operand does not decode.
+func VerifPointOp(op string, a, b []byte) (res []byte, ok bool) {
+	p, err := new(edwards25519.Point).SetBytes(a)
+	if err != nil {
+		return nil, false
+	}
+	q := edwards25519.NewIdentityPoint()
+	if op == "add" || op == "sub" || op == "equal" {
+		if q, err = new(edwards25519.Point).SetBytes(b); err != nil {
+			return nil, false
+		}
+	}
+	switch op {
+	case "add":
+		return new(edwards25519.Point).Add(p, q).Bytes(), true
+	case "sub":
+		return new(edwards25519.Point).Subtract(p, q).Bytes(), true
+	case "neg":
+		return new(edwards25519.Point).Negate(p).Bytes(), true
+	case "double":
+		return new(edwards25519.Point).Add(p, p).Bytes(), true
+	case "equal":
+		return []byte{byte(p.Equal(q))}, true
+	case "recode":
+		return p.Bytes(), true
+	}
+	panic("VerifPointOp: unknown operation " + op)
 }
